@@ -1358,7 +1358,7 @@ mismatch between values and axes""".format(inferred, self.values.shape)
         meta = {}
         for m in self._metadata():
             try:
-                val = getattr(self, m)
+                val = self.attrs[m] # (not getattr: metadata may be named like a property, a method or a dimension)
                 if jsonimported: 
                     _ = json.dumps(val)
                 meta[m] = val
